@@ -129,6 +129,14 @@ class IndentPrintMixin:
         self.print(folded)
 
 
+def _srcrepr(value: Any) -> str:
+    # repr() of a float that is not finite is a bare name (inf, nan),
+    # not an expression that reads back
+    if isinstance(value, float) and (value != value or value in {float('inf'), float('-inf')}):
+        return f"float('{value!r}')"
+    return repr(value)
+
+
 def fold(
     prefix: str,
     value: Any,
@@ -154,16 +162,16 @@ def fold(
 
     im = IndentPrintMixin(amount=amount, initial=initial)
     if not isiter(value):
-        im.print(f'{prefix}{lbrack}{value!r}{rbrack}')
+        im.print(f'{prefix}{lbrack}{_srcrepr(value)}{rbrack}')
         return im.printed_text().rstrip()
 
     if isinstance(value, dict):
         if reprs:
-            repr_list = [f'{k!r}: {v!r}' for k, v in value.items()]
+            repr_list = [f'{k!r}: {_srcrepr(v)}' for k, v in value.items()]
         else:
             repr_list = [f'{k}: {v}' for k, v in value.items()]
     elif reprs:
-        repr_list = [repr(v) for v in value]
+        repr_list = [_srcrepr(v) for v in value]
     else:
         repr_list = value
 
